@@ -202,7 +202,8 @@ def _update_tree (force_dpid = None):
     change_count = 0
     # Go through all switches, not just the ones on the tree: a switch
     # without any (bidirectional) link still has ports to (re-)enable.
-    for con in core.openflow.connections:
+    # (a copy: a failed send removes the connection from the nexus)
+    for con in list(core.openflow.connections):
       sw = con.dpid
       ports = tree.get(sw, ())
       if con.connect_time is None: continue # Not fully connected
